@@ -13,7 +13,7 @@ CASES = {'quick': 2400, 'thorough': 40000}
 MAX_SHARDS = 16
 GATES = {
     'quick': {'evaluations': 2000, 'mode:noedit': 150, 'mode:edit': 150, 'mode:raise': 150, 'mode:remove': 100, 'mode:add': 100,
-              'mode:single-edit': 100, 'mode:single-noedit': 50, 'mode:single-raise': 50, 'mode:unmatched-include': 50,
+              'mode:single-edit': 100, 'added:empty-built': 10, 'added:empty-parsed': 10, 'added:parsed-crlf': 10, 'edit_kind:clear': 50, 'edit_kind:append': 50, 'mode:single-noedit': 50, 'mode:single-raise': 50, 'mode:unmatched-include': 50,
               'spelling:abs': 200, 'spelling:dot': 200, 'spelling:bare': 200, 'spelling:updown': 200, 'files_crlf_edited': 150,
               'graphs_with_cycle_or_diamond': 200, 'graphs_with_glob': 200, 'audit_events': 5000},
     'thorough': {'evaluations': 35000, 'files_crlf_edited': 4000},
@@ -21,7 +21,8 @@ GATES = {
 RULE = ('case = one temporary tree (outside /repo and /verif, removed afterwards) of 1..7 (thorough ..12) files in nested directories whose '
         'include directives form a random graph (plain, *.bean, **/*.bean, ../ patterns; cycles, diamonds, self-includes), each file with LF, '
         'CRLF or mixed line ends; the entry path spelled absolute, ./x, sub/../x or bare (cwd in the directory); the with-block edits a '
-        'random subset, removes entries, adds entries (existing or new directory), raises, or does nothing; both edit_file and '
+        'random subset (an account renamed, a comment appended, or all directives removed), removes entries, adds 1..3 entries (existing or '
+        'new directory; built or parsed models, also ones that print as the empty string, CRLF text), raises, or does nothing; both edit_file and '
         'edit_file_recursive. One evaluation = one with-block judged from the snapshot {path: bytes, mtime_ns} before/after and the '
         'sys.addaudithook log of the block (open/remove/mkdir/rename/truncate inside the tree): an untouched file keeps bytes and mtime and is '
         'never opened for writing; an edited file holds the bytes of print(edit(parse(original decoded without newline translation))); '
@@ -89,7 +90,12 @@ def closure(root, entry_rel):
 
 def the_edit(f, tag):
     """The edit applied both through the editor and to the independently parsed expectation."""
-    f.directives[-1].account = 'Assets:Edited' + tag
+    if tag == '5':
+        f.raw_directives_with_comments.clear()          # the model now prints (next to) nothing
+    elif tag == '6':
+        f.raw_directives_with_comments.append(models.BlockComment.from_value('appended'))
+    else:
+        f.directives[-1].account = 'Assets:Edited' + tag
 
 
 def expected_bytes(original: bytes, tag):
@@ -197,12 +203,21 @@ def run_case(col, r, idx):
                         removed.add(rel)
                         edited.discard(rel)
                     if mode == 'add':
-                        newrel = r.choice(['new.bean', 'newdir/n.bean', 'a/added.bean', 'newdir/deep/er.bean'])
                         k0 = keys['index.bean']
                         base = os.path.dirname(k0)
-                        files[os.path.join(base, newrel) if base else newrel] = models.File.from_children(
-                            [models.BlockComment.from_value('created')])
-                        added[os.path.normpath(newrel)] = b'; created'
+                        for newrel in r.sample(['new.bean', 'newdir/n.bean', 'a/added.bean', 'newdir/deep/er.bean'], r.choice([1, 1, 2, 3])):
+                            form = r.choice(['comment', 'empty-built', 'empty-parsed', 'parsed-crlf', 'parsed'])
+                            if form == 'comment':
+                                nf, nb = models.File.from_children([models.BlockComment.from_value('created')]), b'; created'
+                            elif form == 'empty-built':
+                                nf, nb = models.File.from_children([]), b''
+                            else:
+                                nb = {'empty-parsed': b'', 'parsed-crlf': b'2000-01-01 open Assets:New\r\n; x\r\n',
+                                      'parsed': b'\n2000-01-01 open Assets:New  ; c\n\n'}[form]
+                                nf = common.parser().parse(nb.decode(), models.File)
+                            files[os.path.join(base, newrel) if base else newrel] = nf
+                            added[os.path.normpath(newrel)] = nb
+                            col.count('added:' + form)
                     if mode == 'raise':
                         raise KeyError('boom')
         except KeyError as e:
@@ -216,6 +231,8 @@ def run_case(col, r, idx):
         after, dirs_after = snapshot(root)
         col.ev()
         col.count('mode:' + mode)
+        if edited:
+            col.count('edit_kind:' + {'5': 'clear', '6': 'append'}.get(tag, 'account'))
         col.count('spelling:' + spelling)
         col.count('audit_events', len(evs))
         if feats & {'glob'}:
